@@ -701,7 +701,9 @@ func ruleLinkFixpoint(c *Ctx) []Obligation {
 	if inner != nil {
 		for h := inner.Idom(); h != nil; h = h.Idom() {
 			for _, p := range h.Preds {
-				if h.Dominates(p) && blockReaches(inner, p, nil) {
+				// a back edge of a loop that contains the inner one: reached from it without leaving through h
+				// (a loop that merely precedes the pass inside the retry loop is reached only through its header)
+				if h.Dominates(p) && blockReaches(inner, p, map[*ssa.BasicBlock]bool{h: true}) {
 					outer = h
 				}
 			}
